@@ -104,10 +104,17 @@ pub fn nid(id: NodeId) -> String {
     format!("n{}", usize::from(id) - 1)
 }
 
+/// `n<slot>@<generation>` — the generation is only visible through `Debug`
+pub fn idg(id: NodeId) -> String {
+    let d = format!("{:?}", id);
+    let gen = d.rsplit("NodeStamp(").next().and_then(|t| t.split(')').next()).unwrap_or("?").to_string();
+    format!("n{}@{}", usize::from(id) - 1, gen)
+}
+
 fn ln(l: Option<NodeId>) -> String {
     match l {
         None => "-".into(),
-        Some(i) => format!("{:?}", i),
+        Some(i) => idg(i),
     }
 }
 
@@ -740,7 +747,7 @@ impl<P: Payload> World<P> {
             if !p.live {
                 match r {
                     Ok(id) => {
-                        o.outcome = format!("id={:?}", id);
+                        o.outcome = format!("id={}", idg(id));
                         o.failures.push(Failure::new(
                             &["C12"],
                             format!("{opname}/{rel}/no-panic-on-impossible"),
@@ -790,7 +797,7 @@ impl<P: Payload> World<P> {
                 return o;
             }
         };
-        o.outcome = format!("id={:?}", id);
+        o.outcome = format!("id={}", idg(id));
         let slot = usize::from(id) - 1;
         // ---- C07: which slot, count
         let count1 = self.arena.count();
